@@ -138,7 +138,10 @@ func (s *Session) decodeNext(v interface{}) error {
 		case xml.StartElement:
 			return d.DecodeElement(v, &t)
 		case xml.EndElement:
-			return errors.New("the server closed the stream")
+			// (other end tags are skipped: over WebSocket the <open/> that precedes the features ends here)
+			if t.Name.Space == stanza.NSStream && t.Name.Local == "stream" {
+				return errors.New("the server closed the stream")
+			}
 		}
 	}
 }
